@@ -64,7 +64,8 @@ func c10Match(entries []c10Entry, name []string) bool {
 	return false
 }
 
-var c10Labels = []string{"a", "b", "c", "com", "net", "example", "x-1"}
+// together the labels use every letter, so that the case folding of every letter is on the path
+var c10Labels = []string{"a", "b", "c", "com", "net", "example", "x-1", "zq", "jvkwhy", "dfgiu-09"}
 
 func c10GenName(t *rapid.T, min int) []string {
 	n := rapid.IntRange(min, 3).Draw(t, "nLabels")
@@ -250,11 +251,14 @@ func TestVfC10Rules(t *testing.T) {
 			}
 			// mixed case on the wire
 			var wn vfkit.Name
-			mask := rapid.Uint32().Draw(t, "case")
+			mask := rapid.Uint64().Draw(t, "case")
+			allUpper := rapid.IntRange(0, 3).Draw(t, "allUpper") == 0
 			for i, l := range name {
 				b := []byte(l)
-				if mask&(1<<uint(i)) != 0 {
-					b = []byte(strings.ToUpper(l))
+				for j := range b {
+					if (allUpper || mask&(1<<uint((i*11+j)%64)) != 0) && 'a' <= b[j] && b[j] <= 'z' {
+						b[j] -= 'a' - 'A' // per character: "wWw.eXaMpLe"
+					}
 				}
 				wn = append(wn, b)
 			}
